@@ -1,1 +1,386 @@
-fn main(){}
+//! rs2lean — `fn` mode of the G tie: translate the bodies of a whitelist of pure integer
+//! functions of the repository under verification into Lean 4 definitions.
+//!
+//! usage: rs2lean --repo <path> --out <dir> [--only <group>] [--stdout]
+//!
+//! Exit status: 0 = all groups written; 2 = a target contains a construct outside the supported
+//! subset (reported as `file:line: what`), nothing is written for that group and a stale output
+//! file of that group is removed so that it can never be used silently.
+
+mod expr;
+mod front;
+mod ir;
+mod lower;
+mod sha;
+mod stmt;
+mod targets;
+
+use front::*;
+use ir::*;
+use std::collections::{BTreeMap, BTreeSet};
+use std::path::{Path, PathBuf};
+
+fn find_items<'f>(file: &'f syn::File) -> Vec<&'f syn::Item> {
+    // top level only (plus nothing from `mod tests`)
+    file.items.iter().collect()
+}
+
+fn impl_owner(i: &syn::ItemImpl) -> Option<String> {
+    if i.trait_.is_some() {
+        return None;
+    }
+    match &*i.self_ty {
+        syn::Type::Path(tp) if tp.qself.is_none() => tp.path.segments.last().map(|s| s.ident.to_string()),
+        _ => None,
+    }
+}
+
+struct Parsed {
+    rel: String,
+    ast: syn::File,
+}
+
+fn translate_group(repo: &Path, g: &targets::Group) -> R<String> {
+    // ---- parse the files of the group once
+    let mut files: BTreeMap<String, Parsed> = BTreeMap::new();
+    let mut need = BTreeSet::new();
+    for (f, _) in g.enums.iter().chain(g.structs.iter()) {
+        need.insert(f.to_string());
+    }
+    for (f, _, _) in g.consts.iter().chain(g.fns.iter()) {
+        need.insert(f.to_string());
+    }
+    for rel in need {
+        let path = repo.join(&rel);
+        let src = match std::fs::read_to_string(&path) {
+            Ok(s) => s,
+            Err(e) => return refuse(&rel, 0, format!("cannot read source file: {}", e)),
+        };
+        let ast = match syn::parse_file(&src) {
+            Ok(a) => a,
+            Err(e) => return refuse(&rel, e.span().start().line, format!("cannot parse: {}", e)),
+        };
+        files.insert(rel.clone(), Parsed { rel, ast });
+    }
+
+    let mut d = Decls::default();
+    d.result_aliases = g.result_aliases.iter().map(|s| s.to_string()).collect();
+
+    // ---- type declarations
+    for (f, name) in g.enums {
+        let p = &files[*f];
+        let it = find_items(&p.ast).into_iter().find_map(|it| match it {
+            syn::Item::Enum(e) if e.ident == name => Some(e),
+            _ => None,
+        });
+        match it {
+            Some(e) => d.add_enum(&p.rel, e)?,
+            None => return refuse(&p.rel, 0, format!("whitelisted enum `{}` not found", name)),
+        }
+    }
+    for (f, name) in g.structs {
+        let p = &files[*f];
+        let it = find_items(&p.ast).into_iter().find_map(|it| match it {
+            syn::Item::Struct(e) if e.ident == name => Some(e),
+            _ => None,
+        });
+        match it {
+            Some(e) => d.add_struct(&p.rel, e)?,
+            None => return refuse(&p.rel, 0, format!("whitelisted struct `{}` not found", name)),
+        }
+    }
+
+    // ---- constants (in whitelist order)
+    for (f, owner, name) in g.consts {
+        let p = &files[*f];
+        let mut found = false;
+        for it in find_items(&p.ast) {
+            match it {
+                syn::Item::Const(c) if owner.is_empty() && c.ident == name => {
+                    d.add_const(&p.rel, "", &c.ident, &c.ty, &c.expr)?;
+                    found = true;
+                }
+                syn::Item::Impl(i) if impl_owner(i).as_deref() == Some(*owner) => {
+                    for ii in &i.items {
+                        if let syn::ImplItem::Const(c) = ii {
+                            if c.ident == name {
+                                if found {
+                                    return refuse(&p.rel, line_of(c), format!("constant `{}::{}` is defined twice", owner, name));
+                                }
+                                d.add_const(&p.rel, owner, &c.ident, &c.ty, &c.expr)?;
+                                found = true;
+                            }
+                        }
+                    }
+                }
+                _ => {}
+            }
+        }
+        if !found {
+            return refuse(&p.rel, 0, format!("whitelisted constant `{}::{}` not found", owner, name));
+        }
+    }
+
+    // ---- function signatures first (so that bodies can call each other), then bodies
+    struct Src<'s> {
+        rel: String,
+        owner: String,
+        name: String,
+        sig: &'s syn::Signature,
+        block: &'s syn::Block,
+        text: String,
+    }
+    let mut srcs: Vec<Src> = vec![];
+    for (f, owner, name) in g.fns {
+        let p = &files[*f];
+        let mut found: Option<Src> = None;
+        for it in find_items(&p.ast) {
+            match it {
+                syn::Item::Fn(func) if owner.is_empty() && func.sig.ident == name => {
+                    if found.is_some() {
+                        return refuse(&p.rel, line_of(func), format!("fn `{}` is defined twice", name));
+                    }
+                    let text = format!("{} {}", tok(&func.sig), tok(&func.block));
+                    found = Some(Src { rel: p.rel.clone(), owner: String::new(), name: name.to_string(), sig: &func.sig, block: &func.block, text });
+                }
+                syn::Item::Impl(i) if !owner.is_empty() && impl_owner(i).as_deref() == Some(*owner) => {
+                    for ii in &i.items {
+                        if let syn::ImplItem::Method(m) = ii {
+                            if m.sig.ident == name {
+                                if found.is_some() {
+                                    return refuse(&p.rel, line_of(m), format!("fn `{}::{}` is defined twice", owner, name));
+                                }
+                                if m.attrs.iter().any(|a| a.path.is_ident("cfg")) {
+                                    return refuse(&p.rel, line_of(m), format!("fn `{}::{}` is under `#[cfg]`", owner, name));
+                                }
+                                let text = format!("{} {}", tok(&m.sig), tok(&m.block));
+                                found = Some(Src { rel: p.rel.clone(), owner: owner.to_string(), name: name.to_string(), sig: &m.sig, block: &m.block, text });
+                            }
+                        }
+                    }
+                }
+                _ => {}
+            }
+        }
+        match found {
+            Some(s) => srcs.push(s),
+            None => return refuse(&p.rel, 0, format!("whitelisted fn `{}::{}` not found", owner, name)),
+        }
+    }
+    for s in &srcs {
+        // a receiver is only meaningful for an owner that is a translated type; associated
+        // functions of other types (e.g. `ReadMem::maximum_read_length`) keep the owner as a
+        // name prefix only
+        d.add_sig(&s.rel, &s.owner, s.sig)?;
+    }
+
+    let mut defs: Vec<FnDef> = vec![];
+    for s in &srcs {
+        let sig = d.fns[&(s.owner.clone(), s.name.clone())].clone();
+        let (mut cx, params) = FnCx::new(&d, &s.rel, &s.owner, &sig);
+        let ret = sig.ret.clone();
+        let (mut body, _) = cx.block(s.block, Some(&ret))?;
+        cx.zonk(&mut body, line_of(s.sig))?;
+        let mut sig2 = sig.clone();
+        sig2.params = params;
+        defs.push(FnDef {
+            sig: sig2,
+            body,
+            deps: cx.deps.iter().cloned().collect(),
+            errs: cx.errs.iter().cloned().collect(),
+            hash: sha::sha256_hex(s.text.as_bytes()),
+            file: s.rel.clone(),
+            line: line_of(s.sig),
+            rust_path: if s.owner.is_empty() { s.name.clone() } else { format!("{}::{}", s.owner, s.name) },
+        });
+    }
+
+    // ---- order by dependency (whitelist order among the ready ones); recursion is refused
+    let mut ordered: Vec<FnDef> = vec![];
+    let mut done: BTreeSet<String> = BTreeSet::new();
+    let mut pending = defs;
+    while !pending.is_empty() {
+        let pos = pending.iter().position(|f| f.deps.iter().all(|x| done.contains(x)));
+        match pos {
+            Some(i) => {
+                let f = pending.remove(i);
+                done.insert(f.sig.lean.clone());
+                ordered.push(f);
+            }
+            None => {
+                let f = &pending[0];
+                return refuse(&f.file, f.line, format!("fn `{}` is (mutually) recursive", f.rust_path));
+            }
+        }
+    }
+
+    Ok(emit(g, &d, &ordered))
+}
+
+fn emit(g: &targets::Group, d: &Decls, fns: &[FnDef]) -> String {
+    let mut o = String::new();
+    o.push_str(&format!(
+        "/- GENERATED by rs2lean (mode `fn`) — do not edit.  Regenerated from the Rust sources on every\n   check run; `{}` proves each definition equal to the hand-written model.\n   {}\n\n   sources (sha256 of the token stream of each translated item):\n",
+        g.tie, g.doc
+    ));
+    let mut enums: Vec<&EnumDef> = g.enums.iter().map(|(_, n)| &d.enums[*n]).collect();
+    enums.dedup_by_key(|e| e.name.clone());
+    for e in &enums {
+        o.push_str(&format!("     {}:{} enum {} {}\n", e.file, e.line, e.name, e.hash));
+    }
+    for (_, n) in g.structs {
+        let s = &d.structs[*n];
+        o.push_str(&format!("     {}:{} struct {} {}\n", s.file, s.line, s.name, s.hash));
+    }
+    for (_, ow, n) in g.consts {
+        let c = &d.consts[&(ow.to_string(), n.to_string())];
+        o.push_str(&format!("     {}:{} const {} {}\n", c.file, c.line, c.lean, c.hash));
+    }
+    for f in fns {
+        o.push_str(&format!("     {}:{} fn {} {}\n", f.file, f.line, f.rust_path, f.hash));
+    }
+    o.push_str("-/\nimport CamVerif.Prelude.Machine\nset_option linter.unusedVariables false\n");
+    o.push_str(&format!("namespace CamVerif.Gen.{}\nopen CamVerif\n\n", g.out));
+
+    // error constructors (abstracted to their constructor path)
+    let mut errs: BTreeSet<String> = BTreeSet::new();
+    for f in fns {
+        errs.extend(f.errs.iter().cloned());
+    }
+    if !errs.is_empty() {
+        o.push_str("/-- error values, abstracted to the path of their Rust constructor -/\ninductive Err where\n");
+        for e in &errs {
+            o.push_str(&format!("  | {}\n", e));
+        }
+        o.push_str("  deriving Repr, DecidableEq, Inhabited\n\n");
+    } else {
+        o.push_str("/-- no target of this group constructs an error -/\nabbrev Err := Empty\n\n");
+    }
+
+    for e in &enums {
+        o.push_str(&format!("/-- `enum {}` ({}:{}) -/\ninductive {} where\n", e.name, e.file, e.line, e.name));
+        for (v, fields) in &e.variants {
+            o.push_str(&format!("  | {}", v));
+            for (i, (n, t)) in fields.iter().enumerate() {
+                let fname = n.clone().map(|x| lean_ident(&x)).unwrap_or(format!("a{}", i));
+                o.push_str(&format!(" ({} : {})", fname, lower::lean_ty(t)));
+            }
+            o.push('\n');
+        }
+        o.push_str("  deriving Repr, DecidableEq, Inhabited\n\n");
+    }
+    for (_, n) in g.structs {
+        let s = &d.structs[*n];
+        o.push_str(&format!("/-- `struct {}` ({}:{}) -/\nstructure {} where\n", s.name, s.file, s.line, s.name));
+        for (f, t) in &s.fields {
+            o.push_str(&format!("  {} : {}\n", lean_ident(f), lower::lean_ty(t)));
+        }
+        o.push_str("  deriving Repr, DecidableEq, Inhabited\n\n");
+    }
+    for (_, ow, n) in g.consts {
+        let c = &d.consts[&(ow.to_string(), n.to_string())];
+        let b = match c.ty {
+            Ty::Int(b, _) => b,
+            _ => 0,
+        };
+        let v = if c.value >= 0 { format!("{}#{}", c.value, b) } else { format!("-({}#{})", -c.value, b) };
+        o.push_str(&format!("/-- `const {}` ({}:{}) -/\ndef {} : {} := {}\n\n", c.src, c.file, c.line, c.lean, lower::lean_ty(&c.ty), v));
+    }
+    for f in fns {
+        let is_res = matches!(f.sig.ret, Ty::Res(..));
+        let mut lw = lower::Lower::new(if is_res { "Err" } else { "ε" });
+        let comp = lw.lower(&f.body, lower::K::Yield);
+        o.push_str(&format!("/-- `{}` ({}:{}) -/\ndef {}", f.rust_path, f.file, f.line, f.sig.lean));
+        if !is_res {
+            o.push_str(" {ε : Type}");
+        }
+        o.push_str(" (p : Profile)");
+        for (n, t) in &f.sig.params {
+            o.push_str(&format!(" ({} : {})", n, lower::lean_ty(t)));
+        }
+        o.push_str(&format!(" :\n    Res {} {} :=\n", if is_res { "Err" } else { "ε" }, lower::lean_ty_arg(&f.sig.ret)));
+        o.push_str(&lower::print(&comp, 2));
+        o.push_str("\n\n");
+    }
+    o.push_str(&format!("end CamVerif.Gen.{}\n", g.out));
+    o
+}
+
+fn main() {
+    let args: Vec<String> = std::env::args().collect();
+    let mut repo: Option<PathBuf> = None;
+    let mut out: Option<PathBuf> = None;
+    let mut only: Option<String> = None;
+    let mut to_stdout = false;
+    let mut i = 1;
+    while i < args.len() {
+        match args[i].as_str() {
+            "--repo" => {
+                repo = args.get(i + 1).map(PathBuf::from);
+                i += 2;
+            }
+            "--out" => {
+                out = args.get(i + 1).map(PathBuf::from);
+                i += 2;
+            }
+            "--only" => {
+                only = args.get(i + 1).cloned();
+                i += 2;
+            }
+            "--stdout" => {
+                to_stdout = true;
+                i += 1;
+            }
+            other => {
+                eprintln!("rs2lean: unknown argument `{}`\nusage: rs2lean --repo <path> --out <dir> [--only <group>] [--stdout]", other);
+                std::process::exit(64);
+            }
+        }
+    }
+    let (repo, out) = match (repo, out) {
+        (Some(r), Some(o)) => (r, o),
+        _ => {
+            eprintln!("usage: rs2lean --repo <path> --out <dir> [--only <group>] [--stdout]");
+            std::process::exit(64);
+        }
+    };
+    let mut failed = false;
+    for g in targets::groups() {
+        if let Some(o) = &only {
+            if o != g.out {
+                continue;
+            }
+        }
+        let path = out.join(format!("{}.lean", g.out));
+        match translate_group(&repo, &g) {
+            Ok(text) => {
+                if to_stdout {
+                    print!("{}", text);
+                    continue;
+                }
+                let old = std::fs::read_to_string(&path).ok();
+                if old.as_deref() != Some(text.as_str()) {
+                    if let Err(e) = std::fs::write(&path, &text) {
+                        eprintln!("rs2lean: cannot write {}: {}", path.display(), e);
+                        std::process::exit(1);
+                    }
+                    println!("WROTE {}", path.display());
+                }
+                println!("HASH {} {}", path.display(), sha::sha256_hex(text.as_bytes()));
+            }
+            Err(r) => {
+                failed = true;
+                eprintln!("rs2lean: REFUSED group {}: {}", g.out, r);
+                println!("REFUSED {} {}", g.out, r);
+                if !to_stdout && path.exists() {
+                    // never leave a stale translation behind
+                    let _ = std::fs::remove_file(&path);
+                    println!("REMOVED {}", path.display());
+                }
+            }
+        }
+    }
+    if failed {
+        std::process::exit(2);
+    }
+}
